@@ -15,7 +15,7 @@ def make_project(prop):
 
 def make_relevant(prop, also=()):
     tags = (prop,) + tuple(also)
-    return lambda verdict: (not verdict.startswith("bad C")) or any(verdict.startswith("bad " + t + ":") for t in tags)
+    return lambda verdict: (not verdict.startswith("bad C")) or any(verdict.startswith("bad " + t + ("" if ":" in t else ":")) for t in tags)
 
 
 def world_nontrivial(c):
